@@ -136,3 +136,12 @@ ENTRY int verif_double2string(char* out, double v, int precision) {
     char* e = osmium::double2string(out, v, precision);
     return static_cast<int>(e - out);
 }
+
+// the default projection of the WKB / WKT / GeoJSON factories: degrees from the fixed-point location, invalid locations rejected
+ENTRY int verif_identity_projection(int x, int y, double* out) {
+    try {
+        const osmium::geom::Coordinates c = osmium::geom::IdentityProjection{}(osmium::Location{x, y});
+        out[0] = c.x; out[1] = c.y;
+        return 0;
+    } catch (const osmium::invalid_location&) { return 1; }
+}
